@@ -98,6 +98,18 @@ def timer_appends(run, oi):
   return out
 
 
+def source_appends(run, oi):
+  """what each timed source put into object oi's queue, told by the event it posts (every source has its own
+  event): {payload uid: [(seq, op, uid, time_us, thread name)]}.  Which thread makes the posting - one thread per
+  source, a chain of timers, the caller for the first one - is the implementation's business."""
+  out = {}
+  src_uids = set(s['uid'] for s in run.sources if s['obj'] == oi)
+  for seq, tn, op, payload, t_us in run.queue_ops(oi):
+    if op in ('append', 'appendleft') and payload in src_uids:
+      out.setdefault(payload, []).append((seq, op, payload, t_us, tn))
+  return out
+
+
 def consumers_by_queue(sim):
   """live consumer threads grouped by the queue object they serve"""
   groups = {}
